@@ -158,7 +158,8 @@ def subset(from_table: {str: int}, name: str, parents: [int] = None) -> {}:
             result.update(
                 dict(
                     filter(
-                        lambda t, sn=surname: t[0].startswith(sn),
+                        lambda t, sn=surname: t[0] == sn
+                        or t[0].startswith(sn + '___version:'),
                         from_table.items(),
                     )
                 )
